@@ -200,8 +200,8 @@ func route(spec *gspec.GraphSpec, opts []optSpec) (map[string][]string, bool, st
 func TestCheck(t *testing.T) {
 	cfg := mon.Load(ID)
 	rep := mon.NewReporter(cfg, "exploration",
-		"generated nested specs (depth <=3) mixing lambdas of two option types, pass-through nodes and nested graphs; 10 (quick) / 40 (thorough) calls per spec, each with 0-6 call options: undesignated, DesignateNode, DesignateNodeWithPath with several paths, several option values, options derived in different calls from one shared base option, invalid designations (unknown node, path below a lambda, path below a pass-through node, wrong option type), and callback handlers designated to nodes; sequential calls and 8-way concurrent calls. Oracle: a reference router computes for every node path the expected ordered payload list; every executed body's received options must equal it; a call with an invalid designation must fail; a designated handler may fire only for its node; payloads carry (call id, option id) so that leakage between calls is visible. Non-trivial: a call with >=2 options of which >=1 designated into a nested graph; distinct = (spec, options).",
-		[]string{"an option designated to a graph node addresses that graph (all nodes of its type inside)", "designating a pass-through node itself is not generated (it takes no options; the statement is silent)"},
+		"generated nested specs (depth <=3; nested graphs in all three modes) mixing lambdas of two option types, pass-through nodes and nested graphs; 10 (quick) / 40 (thorough) calls per spec, each with 0-6 call options: undesignated, DesignateNode, DesignateNodeWithPath with several paths, several option values, ONE option carrying values of both option types (undesignated / designated to a nested graph: every value reaches the nodes of its type; designated to a lambda: an error), options derived in different calls from one shared base option, run-time step limits designated to nested graphs (reference: the limit bounds that graph only), invalid designations (unknown node, path below a lambda, path below a pass-through node, wrong option type, one wrong value among several, any option designated to a pass-through node, a step limit designated to a lambda or a pass-through node), and callback handlers designated to nodes; sequential calls and 8-way concurrent calls. Oracle: a reference router computes for every node path the expected ordered payload list; every executed body's received options must equal it; a call with an invalid designation must fail; a valid call with a multi-type option that fails while the same call with one Option per value succeeds is a violation; a designated handler may fire only for its node; payloads carry (call id, option id) so that leakage between calls is visible. Non-trivial: a call with >=2 options of which >=1 designated into a nested graph; distinct = (spec, options). PLUS (every 5th case) hand-shaped and generated graphs of chat models, lambdas, pass-through nodes and nested graphs (designation_gaps_test.go, component_test.go, iface_option_test.go): chat-model options, lambda options, one Option with values of two or three option types (also a chat-model option inside WithLambdaOption), step limits (undesignated: the top-level graph only), each undesignated or designated to every kind of node, Invoke and Stream. PLUS (every 5th case, resume_test.go) graph-run options designated to nested graphs: on resumes of interrupts inside stateful nested graphs (depth 1-3, one or two interrupt points, so that enclosing graphs, nested graphs and siblings are restored together) WithStateModifier designated to 1-3 nested graphs must be called exactly for the designated graphs whose state the call restores, with their node path and their state object, and only their states show the modification to the state handlers that run afterwards; WithCheckPointID designated to a nested graph must not make the top-level graph touch its store.",
+		[]string{"an option designated to a graph node addresses that graph (all nodes of its type inside)", "a pass-through node takes no option: any option designated to it is 'an option of the wrong type'; a run-time step limit is an option for graphs: designated to another node it is of the wrong type", "a step limit designated to a nested graph in all-predecessor mode is not generated (eino refuses step limits for such graphs; the statement is silent)", "the graphs whose state a resume restores are those that the interrupt information of the resumed interrupt reports with a state"},
 		100)
 	defer func() {
 		if err := rep.Flush(); err != nil {
@@ -209,11 +209,25 @@ func TestCheck(t *testing.T) {
 		}
 	}()
 	ctx := context.Background()
+	rep.Require("designated_state_modifier_calls_checked", 100)
+	rep.Require("restored_states_left_alone_checked", 100)
+	rep.Require("component_graph_calls", 500)
+	rep.Require("rejected_option-for-passthrough", 20)
+	rep.Require("rejected_step-limit-for-component", 20)
+	rep.Require("valid_calls_with_one_option_of_two_value_types", 200)
 	n := int64(cfg.Pick(300, 600))
 	rep.Cases(n, func(idx int64, rng *mon.Rand) {
+		if idx%5 == 3 {
+			for k := 0; k < cfg.Pick(6, 12); k++ {
+				designatedStateModifierCase(ctx, rep, rng.Sub(fmt.Sprint("statemod", k)), cfg)
+			}
+		}
 		if idx%5 == 4 {
 			componentCase(ctx, rep, rng)
 			ifaceOptionCase(ctx, rep, rng.Sub("iface"))
+			for k := 0; k < 3; k++ {
+				componentGapsCase(ctx, rep, rng.Sub(fmt.Sprint("gaps", k)))
+			}
 			return
 		}
 		mode := gspec.Mode(idx % 3)
@@ -519,6 +533,11 @@ func judge(rep *mon.Reporter, spec *gspec.GraphSpec, in gspec.V, os []optSpec, r
 		return false
 	}
 	for _, e := range res.execs {
+		if ref.Err != "" && len(e.Opts) == 0 && !e.InOK && !e.Done && e.EndSeq == 0 {
+			// the run was stopped by the step limit while this body was just being entered (the log entry
+			// exists, its options are not recorded yet): nothing is known about what it received
+			continue
+		}
 		want := exp[e.Path]
 		got := e.Opts
 		if strings.Join(want, ",") != strings.Join(got, ",") {
